@@ -119,6 +119,11 @@ def build_contracts(mod, prop, tier, seed):
         except Unsupported as e:
             problems.append(("unsupported", c.name, str(e)))
             continue
+        except Exception:
+            # the contract itself could not be built for this configuration (e.g. a register it names has become
+            # zero-width): this configuration is not decided; the others still are
+            problems.append(("contract-error", c.name, traceback.format_exc()[-900:]))
+            continue
         ctxs.append(c)
     return ctxs, problems
 
@@ -273,8 +278,14 @@ def main(prop, tier, seed):
             apool.terminate()
 
     broken, undecided, cover_fail = [], [], []
+    soft_broken = []
     for kind, name, msg in problems:
-        (undecided if kind in ("binding", "unsupported") else broken).append(f"{kind}: {name}: {msg}")
+        if kind in ("binding", "unsupported"):
+            undecided.append(f"{kind}: {name}: {msg}")
+        elif kind == "contract-error":
+            soft_broken.append(f"{kind}: {name}: {msg}")
+        else:
+            broken.append(f"{kind}: {name}: {msg}")
     covers_total = covers_hit = 0
     cosim_cycles = 0
     for r in aux_res:
@@ -315,7 +326,7 @@ def main(prop, tier, seed):
             discharged += 1
             by_backend[r["backend"]] = by_backend.get(r["backend"], 0) + 1
         elif r["expect"] == "sat":
-            broken.append(f"vacuity guard {r['name']} is unsatisfiable: invariant/requires contradictory")
+            cover_fail.append(f"vacuity guard {r['name']} is unsatisfiable: invariant/requires contradictory")
         else:
             failed.setdefault(ci, []).append(r)
     if not obs:
@@ -354,7 +365,7 @@ def main(prop, tier, seed):
             samples.append({"obligation": r["name"], "kind": r["kind"], "clause": r["meta"].get("clause", ""),
                             "result": r["result"], "backend": r["backend"], "seconds": r["seconds"]})
     level = getattr(mod, "LEVEL", "proof")
-    clean = not (broken or undecided or unknown or violations or known_lines or cover_fail)
+    clean = not (broken or soft_broken or undecided or unknown or violations or known_lines or cover_fail)
     cov = {
         "obligations": n_ob, "discharged": n_dis,
         "checker_cmd": f"./check {prop} --tier {tier}",
@@ -401,13 +412,13 @@ def main(prop, tier, seed):
         for b in broken:
             print("CHECKER-BROKEN:", b)
         return 3
-    if not violations and cover_fail:
-        for b in cover_fail:
+    if not violations and (cover_fail or soft_broken):
+        for b in cover_fail + soft_broken:
             print("CHECKER-BROKEN:", b)
         return 3
     if violations:
-        for b in cover_fail:
-            print("note:", b)
+        for b in cover_fail + soft_broken:
+            print("note:", b[:300])
         for f, path, reproduced in violations:
             m = f.get("model") or {}
             print(f"  failed obligation {f['name']} ({f['backend']}, {f['seconds']}s)")
